@@ -1,0 +1,56 @@
+//go:build verif
+
+package generator
+
+// Contracts for the deductive verifier in /verif (govc). This file contains comments only; it is compiled
+// only with the build tag "verif" and adds no code. Syntax: /verif/DESIGN.md, Appendix A.
+
+//@ prelude x509.smt2 keys.smt2 time.smt2
+
+// BuildCertBody: a fresh context whose builders, subject, serial, unique ids, validity and key are exactly those of
+// the configuration; stored key reused, else the request's key, else a generated key of the configured algorithm;
+// TBS manipulations applied to exactly their field (C03, C04, C06, C14, C19).
+//@ func BuildCertBody returns (res, err)
+//@   props C03 C04 C05 C06 C14 C19 C01
+//@   let M = c.Manipulations
+//@   ensures err == nil ==> res != nil && fresh(res) && res.TbsCertificate != nil && fresh(res.TbsCertificate) && res.Issuer != nil && fresh(res.Issuer)
+//@   ensures err != nil ==> res == nil
+//@   ensures @C06 err == nil ==> len(res.Extensions) == len(c.Extensions) && (forall k in [0, len(c.Extensions)) :: res.Extensions[k] == builderOf(old(c.Extensions[k])) && builderErr(old(c.Extensions[k])) == #nilAny)
+//@   ensures @C06,C08 (forall k in [0, len(c.Extensions)) :: builderErr(old(c.Extensions[k])) == #nilAny) || err != nil
+//@   ensures @C03 err == nil ==> (c.Subject != nil ==> res.TbsCertificate.Subject == c.Subject)
+//@   ensures @C03 err == nil ==> res.TbsCertificate.IssuerUniqueId == c.IssuerUniqueId && res.TbsCertificate.SubjectUniqueId == c.SubjectUniqueId
+//@   ensures @C03 err == nil ==> res.TbsCertificate.SerialNumber != nil && (if c.SerialNumber != 0 then BigVal(res.TbsCertificate.SerialNumber) == c.SerialNumber else (0 <= BigVal(res.TbsCertificate.SerialNumber) && BigVal(res.TbsCertificate.SerialNumber) < pow2(159)))
+//@   ensures @C04 err == nil ==> res.TbsCertificate.Validity.NotBefore == utc(c.Validity.From) && res.TbsCertificate.Validity.NotAfter == utc(c.Validity.Until)
+//@   ensures @C19,C02 err == nil ==> res.TbsCertificate.Version == (if M.Version != nil then deref(M.Version) else 2)
+//@   ensures @C14 err == nil && prk != nil ==> res.PrivateKey == prk
+//@   ensures @C14,C05 err == nil && prk != nil && M.TbsPublicKeyAlgorithm == nil && M.TbsPublicKey == nil ==> deep(res.TbsCertificate.PublicKey) == spkiDeep(prk)
+//@   ensures @C14 err == nil && prk == nil && req != nil ==> res.PrivateKey == nil
+//@   ensures @C14 err == nil && prk == nil && req != nil && M.TbsPublicKeyAlgorithm == nil && M.TbsPublicKey == nil ==> res.TbsCertificate.PublicKey == old(req.TbsCsr.PublicKey)
+//@   ensures @C05,C14 err == nil && prk == nil && req == nil ==> res.PrivateKey != nil && keyAlgOf(res.PrivateKey) == c.KeyAlgorithm
+//@   ensures @C05 err == nil && prk == nil && req == nil && M.TbsPublicKeyAlgorithm == nil && M.TbsPublicKey == nil ==> deep(res.TbsCertificate.PublicKey) == spkiDeep(res.PrivateKey)
+//@   ensures @C19 err == nil && M.TbsPublicKey != nil ==> res.TbsCertificate.PublicKey.PublicKey == old(deref(M.TbsPublicKey))
+//@   ensures @C19 err == nil && M.TbsPublicKeyAlgorithm != nil ==> res.TbsCertificate.PublicKey.Algorithm == old(deref(M.TbsPublicKeyAlgorithm))
+//@   ensures @C19,C02 err == nil ==> (if M.TbsSignature != nil then res.TbsCertificate.SignatureAlgorithm == old(deref(M.TbsSignature)) else res.TbsCertificate.SignatureAlgorithm.Algorithm == nil)
+//@   ensures @C01 err == nil ==> res.Issuer.IssuerDn == res.TbsCertificate.Subject && res.Issuer.PrivateKey == res.PrivateKey
+//@   loop 1
+//@     invariant 0 <= idx && idx <= len(c.Extensions)
+//@     invariant @C06 forall k in [0, idx) :: extBuild[k] == builderOf(old(c.Extensions[k])) && builderErr(old(c.Extensions[k])) == #nilAny
+//@     invariant idx > 0 ==> err == nil
+
+// SignCertBody: Sign with the configured algorithm, then the outer manipulations; the signed part is untouched (C19).
+//@ func SignCertBody returns (res, err)
+//@   props C19 C01 C02 C05
+//@   requires ctx != nil && ctx.TbsCertificate != nil
+//@   let M = cfg.Manipulations
+//@   ghostret SIGNED gopki/generator/cert.Certificate = aftercall("(*gopki/generator/cert.CertificateContext).Sign", 1, deref(typed(callres("(*gopki/generator/cert.CertificateContext).Sign", 1, 0), "*gopki/generator/cert.Certificate")))
+//@   ensures err == nil ==> res != nil && fresh(res)
+//@   ensures err != nil ==> res == nil
+//@   ensures @C19,C01 err == nil ==> res.TBSCertificate == SIGNED.TBSCertificate
+//@   ensures @C19 err == nil ==> res.SignatureAlgorithm == (if M.SignatureAlgorithm != nil then old(deref(M.SignatureAlgorithm)) else SIGNED.SignatureAlgorithm)
+//@   ensures @C19 err == nil ==> res.SignatureValue == (if M.SignatureValue != nil then old(deref(M.SignatureValue)) else SIGNED.SignatureValue)
+//@   let ALG = cfg.SignatureAlgorithm
+//@   ensures @C01 err == nil ==> res.TBSCertificate.Issuer == old(ctx.Issuer.IssuerDn)
+//@   ensures @C01 err == nil ==> (if specKeyType(ALG) == 1 then ecdsaVerify(unboxRef(old(ctx.Issuer.PrivateKey)), digest(specHashId(ALG), der(deep(res.TBSCertificate))), bytes(SIGNED.SignatureValue.Bytes)) else rsaVerify(unboxRef(old(ctx.Issuer.PrivateKey)), specHashId(ALG), digest(specHashId(ALG), der(deep(res.TBSCertificate))), bytes(SIGNED.SignatureValue.Bytes)))
+//@   ensures @C05,C02 err == nil ==> 0 <= ALG && ALG <= 7 && oidv(SIGNED.SignatureAlgorithm.Algorithm) == specSigOid(ALG)
+//@   ensures @C03,C04,C19 err == nil ==> res.TBSCertificate.Version == old(ctx.TbsCertificate.Version) && res.TBSCertificate.SerialNumber == old(ctx.TbsCertificate.SerialNumber) && res.TBSCertificate.Validity == old(ctx.TbsCertificate.Validity) && res.TBSCertificate.Subject == old(ctx.TbsCertificate.Subject) && res.TBSCertificate.PublicKey == old(ctx.TbsCertificate.PublicKey) && res.TBSCertificate.IssuerUniqueId == old(ctx.TbsCertificate.IssuerUniqueId) && res.TBSCertificate.SubjectUniqueId == old(ctx.TbsCertificate.SubjectUniqueId)
+//@   ensures @C06 err == nil ==> len(res.TBSCertificate.Extensions) == len(old(ctx.Extensions)) && (forall k in [0, len(old(ctx.Extensions))) :: res.TBSCertificate.Extensions[k] == compileRes(old(ctx.Extensions[k]), ctx))
